@@ -200,6 +200,14 @@ class UFs:
                 return res
         res = [SReal(z3.Real("%s_%d_%d" % (name, len(self.calls), i)))
                for i in range(max(1, len(extra)))]
+        # congruence with earlier calls whose arguments are not literally
+        # the same terms: equal arguments => equal results
+        for nm, el, ex, pres in self.calls:
+            if nm == name and ex == extra and len(el) == len(elems):
+                self.eng._add(z3.Implies(
+                    z3.And([toreal(a) == toreal(b)
+                            for a, b in zip(el, elems)] or [True]),
+                    z3.And([a.e == b.e for a, b in zip(res, pres)])))
         self.calls.append((name, list(elems), extra, res))
         return res
 
@@ -247,10 +255,13 @@ def run_bright(eng, p):
     npx = SymNP(std=uf.std, percentile=uf.percentile)
     imgs, bgs, masks = [], [], []
     for e in range(nev):
+        # gray values of up to 16 bit (8-, 12- and 16-bit cameras)
         imgs.append(SArr([eng.int("img%d_%d" % (e, i)) for i in range(npx_)],
-                         np.uint8))
+                         np.uint16))
         bgs.append(SArr([eng.int("bg%d_%d" % (e, i)) for i in range(npx_)],
-                        np.uint8))
+                        np.uint16))
+        for v in imgs[-1].elems + bgs[-1].elems:
+            eng.assume((v >= 0) & (v <= 65535))
         mb = [eng.bool("m%d_%d" % (e, i)) for i in range(npx_)]
         eng.assume(SBool(z3.Or([b.e for b in mb])))
         masks.append(SArr(mb, bool))
@@ -375,11 +386,11 @@ def replay(case, params, v):
     fails = []
     if k == "bright":
         nev = p["nev"]
-        imgs = [np.array([[int(vals.get("img%d_%d" % (e, i), 0)) % 256
-                           for i in range(3)]], dtype=np.uint8)
+        imgs = [np.array([[int(vals.get("img%d_%d" % (e, i), 0)) % 65536
+                           for i in range(3)]], dtype=np.uint16)
                 for e in range(nev)]
-        bgs = [np.array([[int(vals.get("bg%d_%d" % (e, i), 0)) % 256
-                          for i in range(3)]], dtype=np.uint8)
+        bgs = [np.array([[int(vals.get("bg%d_%d" % (e, i), 0)) % 65536
+                          for i in range(3)]], dtype=np.uint16)
                for e in range(nev)]
         masks = [np.array([[bool(vals.get("m%d_%d" % (e, i), False))
                             for i in range(3)]]) for e in range(nev)]
